@@ -207,18 +207,21 @@ def top_eig(M):
     return S, Vt.T
 
 
-def gate(mn, S_full, k, tol=TOL):
+def gate(mn, S_full, k, tol=TOL, sample=True):
     """None if the invariant comparisons are well conditioned for this case, else the reason
-    (the case is then counted as skipped)."""
+    (the case is then counted as skipped).  The `> tol` decisions of model and implementation
+    are taken on numpy's eigenvalues of the same matrices, so they can only differ when an
+    eigenvalue is within rounding of tol; a factor 10 around tol is excluded."""
     v = mn["vC"]
-    if np.any((np.abs(v) > tol / 1e3) & (np.abs(v) < tol * 1e3)):
-        return "eigenvalue of X^T X within 1e3 of rcond"
-    kept = v[v > tol]
-    if len(kept) and kept[0] / kept[-1] > COND_MAX:
-        return "X^T X ill conditioned on its retained range"
+    if not sample:
+        if np.any((np.abs(v) > tol / 10) & (np.abs(v) < tol * 10)):
+            return "eigenvalue of X^T X within a factor 10 of rcond"
+        kept = v[v > tol]
+        if len(kept) and kept[0] / kept[-1] > COND_MAX:
+            return "X^T X ill conditioned on its retained range"
     S = np.asarray(S_full)
-    if np.any((S > tol / 1e3) & (S < tol * 1e3)):
-        return "eigenvalue of the modified matrix within 1e3 of tol"
+    if np.any((S > tol / 10) & (S < tol * 10)):
+        return "eigenvalue of the modified matrix within a factor 10 of tol"
     if S[0] <= tol:
         return None                                  # everything masked on both sides
     r = int(np.sum(S[:k] > tol))
@@ -226,6 +229,8 @@ def gate(mn, S_full, k, tol=TOL):
         gap = (S[r - 1] - S[r]) / S[0] if r > 0 else 1.0
         if gap < GAP_MIN:
             return "relative eigen-gap at the cut below %g" % GAP_MIN
+    if r > 0 and S[0] / S[r - 1] > COND_MAX:
+        return "retained spectrum of the modified matrix ill conditioned"
     return None
 
 
